@@ -1,7 +1,7 @@
 #!/bin/sh
 # usage: allprops.sh <patch.diff> -- runs every property's rules on /repo + patch (overlay) and prints the ones that fire
 for P in $(${ADGVERIF:-/verif/bin/adgverif} list); do
-  ${ADGVERIF:-/verif/bin/adgverif} mutant $P /repo "$1" | python3 -c "
+  ${ADGVERIF:-/verif/bin/adgverif} mutant $P ${ADGREPO:-/repo} "$1" | python3 -c "
 import json,sys
 d=json.loads(sys.stdin.read().strip().splitlines()[-1])
 f=[x for x in (d.get('fired') or []) if not (x.startswith('C12-R3 filter/hashprefix.(*Filter).refresh atomicity') or x.startswith('C12-R4 filter/hashprefix.(*Filter).setInCache'))]
